@@ -42,6 +42,7 @@ COMPONENTS = {
     'real': ['demux.py __main__ (argument handling, library/lane detection, -n budget across lanes, --norejects, --scsepf, -fh, log file) re-executed with runpy in a forked child for ~1% (quick) / 4% (thorough) of the cases', 'DemultiplexingStrategyLoader.demultiplex', 'all registered strategy classes', 'BarcodeParser', 'FastqIterator', 'FastqHandle', 'HandleLimiter', 'gzip'],
     'stub': ['recording proxies around targetFile / rejectHandle / FastqIterator.__next__ (delegating)', 'SimFS fd budget + SimClock behind HandleLimiter in per-cell mode'],
 }
+ISOLATE = True      # every case runs in a forked child of the worker: no repository state (shared counters, default arguments) travels between cases or into the forked command-line child
 REQUIRED_PROBES = ['cli_two_libraries_in_one_invocation', 'cli_chunked_workflow', 'cli_argv_shuffled', 'cli_rerun_into_existing_output', 'cli_run', 'cli_multi_lane', 'cli_cutoff_hit', 'accepted_and_rejected_in_one_run', 'cutoff_hit', 'per_cell_output', 'fd_budget_fault_fired', 'no_reject_handle', 'high_phred_in_umi', 'unknown_index']
 
 _LOADERS = {}
